@@ -450,6 +450,16 @@ def judge_message(cls, tree):
                         out.append((f"roundtrip-wrong-python-type:{cls.__name__}", {"what": str(e)}))
                     else:
                         out += _classify("roundtrip", diffs) or [(f"roundtrip-not-equal:{cls.__name__}", {"fields": sorted(tree)})]
+        # the same message with the values carried by other Python types a caller may use (a bytearray - what the pairing TLV writer and a
+        # GATT read hand over - where bytes are declared; the member's plain number where an IntEnum is declared): the same bytes
+        if got is not None:
+            try:
+                loose = bytes(ts.build(cls, tree, "loose").encode())
+            except Exception as e:  # noqa: BLE001
+                out.append((f"encode-raises:{type(e).__name__}:{cls.__name__}:values-carried-by-bytearray-or-plain-numbers", {"error": str(e)[:200], "fields": sorted(tree)}))
+            else:
+                if loose != got:
+                    out.append((f"encode-depends-on-the-python-type-carrying-a-value:{cls.__name__}", {"fields": sorted(tree), "canonical_len": len(got), "loose_len": len(loose)}))
     v, _ = _decode_conformant(cls, tree, want)
     return _uniq(out + v)
 
